@@ -395,6 +395,7 @@ _REST_SHAPES = {  # per-atom shapes (rank 1-3 properties)
 _S_REST = {k: st.sampled_from(v) for k, v in _REST_SHAPES.items()}
 _S_KIND = st.sampled_from('ffffiiss')
 PROP_FLOAT_DT = ('f4', 'f4', 'f2', '>f8')
+_S_KEEP = st.sampled_from([False] * 5 + [True])
 _S_POS_DT = st.sampled_from([None, None, None, 'f4', '>f8'])
 _S_ATYPE_DT = st.sampled_from([None, None, None, 'i1', 'u1', 'i4', 'u8', '>i4'])
 _S_NATOMS = st.sampled_from([1, 1, 2, 2, 3, 3, 4, 5, 6, 8])
@@ -461,7 +462,7 @@ def atoms_cases(draw):
     return {'natoms': n, 'atype': [draw(_si(1, ntypes)) for _ in range(n)],
             'pos': _nested(draw, [n, 3], _S_POS), 'pos_layout': draw(S_LAYOUT), 'atype_layout': draw(S_LAYOUT1),
             'pos_dtype': draw(_S_POS_DT), 'atype_dtype': draw(_S_ATYPE_DT), 'ro': draw(S_BOOL),
-            'keep_kw': draw(_S_0_2) == 0, 'cm': draw(S_BOOL),
+            'keep_kw': draw(_S_KEEP), 'cm': draw(S_BOOL),
             'pos_unit': draw(S_LEN_UNIT_OR_NONE), 'props': props, 'select': sel,
             'how': draw(_sf(('prop_unit', 'prop_name',))), 'enc': draw(S_ENC), 'cfgW': w, 'cfgR': r}
 
@@ -511,7 +512,7 @@ def system_cases(draw):
     case = {'cell': draw(_S_CELL10), 'pbc': draw(gens.pbcs), 'natoms': n, 'atype': atype,
             'rel': _nested(draw, [n, 3], _S_REL10), 'pos_layout': draw(S_LAYOUT), 'atype_layout': draw(S_LAYOUT1),
             'pos_dtype': draw(_S_POS_DT), 'atype_dtype': draw(_S_ATYPE_DT), 'ro': draw(S_BOOL),
-            'keep_kw': draw(_S_0_2) == 0, 'cm': draw(S_BOOL),
+            'keep_kw': draw(_S_KEEP), 'cm': draw(S_BOOL),
             'symbols': symbols, 'masses': masses,
             'pos_unit': draw(_sf((None, 'scaled', 'scaled', 'angstrom', 'nm', 'm',))),
             'box_unit': draw(_sf((None, 'angstrom', 'nm', 'm', 'aBohr',))),
